@@ -90,3 +90,18 @@ reg('C11', 'streams', 'rule_idx')
 reg('C11', 'codec', 'rule_alphabet')
 # ---- C17 (chunk.unwrap sites)
 reg('C17', 'text', 'rule_unwrap_text')
+
+# ---- strengthening after the independent breakage round (DESIGN §11)
+reg('C05', 'replace_cache', 'rule_clamp')
+reg('C17', 'replace_cache', 'rule_clamp')
+reg('C10', 'caches', 'rule_encode_all')
+reg('C20', 'eqhash', 'rule_hashall')
+reg('C14', 'eqhash', 'rule_hashall')
+# the sorted accessor MEMO(iii) trusts is only pure if RESET + FRESH (+ PUBLISH-ORDER) hold; cache transparency needs KEY + WRITEONCE
+reg('C14', 'replace_cache', 'rule_reset')
+reg('C14', 'replace_cache', 'rule_fresh')
+reg('C14', 'caches', 'rule_key')
+reg('C14', 'caches', 'rule_writeonce')
+reg('C20', 'replace_cache', 'rule_reset')
+reg('C20', 'replace_cache', 'rule_fresh')
+reg('C20', 'replace_cache', 'rule_publish_order')
